@@ -185,11 +185,15 @@ class MCSimulation:
             np.empty(shape=nb_of_jumps) for nb_of_jumps in all_nb_of_jumps
         ]
         pivot_position = grid.origin_coordinate
+        running_value = 0.0
         for k, nb_of_jumps in enumerate(all_nb_of_jumps):
             states_increments = sampling(size=nb_of_jumps)
-            values[k] = np.cumsum(
+            # running sum of the sampled states over the whole path: it goes on from one time interval to the next
+            values[k] = running_value + np.cumsum(
                 [grid[pivot_position + increment] for increment in states_increments]
             )
+            if len(values[k]):
+                running_value = values[k][-1]
             all_states_increments[k] = states_increments
 
         return values, all_states_increments
@@ -214,9 +218,11 @@ class MCSimulationFixedTimes(MCSimulation, SimulationFixedTimes):
     @staticmethod
     def project(values):
         definitive_values = np.zeros(shape=len(values), dtype=float)
+        last_value = 0.0
         for k, sliceStates in enumerate(values):
             if sliceStates.shape[0]:
-                definitive_values[k] = sliceStates[-1]
+                last_value = sliceStates[-1]
+            definitive_values[k] = last_value  # an interval without jump keeps the value reached before
         return definitive_values
 
     def simulate_jumps(self):
